@@ -142,28 +142,43 @@ def kepler_case(family, repeat=False, reuse=False):
                      + (" -- also when the same propagator instance has served another orbit (another semi-major axis) before" if reuse else ""))
 
 
-def kepler_compose_case():
+def kepler_compose_case(which="kepler", family="ell"):
+    """which: 'kepler' or 'j2' (the J2 drift is linear in time, so the same composition laws hold); family 'hyp': unbound
+    Keplerian motion (no period)"""
     ins = INS + [("dt2", "real")]
+    periodic = which == "kepler" and family == "ell"
 
     def run(env, v):
         v = scale(env, v)
-        o1, _ = propagate(env, "kepler", v, None, v["dt"])
-        o2, _ = propagate(env, "kepler", v, o1, v["dt2"])
-        back, _ = propagate(env, "kepler", v, o1, -v["dt"])
+        o1, _ = propagate(env, which, v, None, v["dt"])
+        o2, _ = propagate(env, which, v, o1, v["dt2"])
+        back, _ = propagate(env, which, v, o1, -v["dt"])
         if env.symbolic:
-            per, _ = propagate(env, "kepler", v, None, 2 * env.pi / n_of(env, v["mu"], v["a"]))
-            return {"two": o2[:5], "two_M": o2[5], "back": back[:5], "back_M": back[5], "period": Ang(per[5])}
-        return {"two": o2[:2], "two_M": Mod2pi(o2[5]), "back": back[:2], "back_M": Mod2pi(back[5]), "period": Ang(v["M"])}
+            out = {"two": o2[:3], "two_angles": o2[3:5], "two_M": o2[5], "back": back[:3], "back_angles": back[3:5], "back_M": back[5]}
+            if periodic:
+                per, _ = propagate(env, "kepler", v, None, 2 * env.pi / n_of(env, v["mu"], v["a"]))
+                out["period"] = Ang(per[5])
+            return out
+        out = {"two": o2[:2], "two_angles": [Mod2pi(x) for x in o2[3:5]], "two_M": Mod2pi(o2[5]), "back": back[:2],
+               "back_angles": [Mod2pi(x) for x in back[3:5]], "back_M": Mod2pi(back[5])}
+        if periodic:
+            out["period"] = Ang(v["M"])
+        return out
 
     def ref(env, v, out):
         v = scale(env, v)
-        one, _ = propagate(env, "kepler", v, None, v["dt"] + v["dt2"])
+        one, _ = propagate(env, which, v, None, v["dt"] + v["dt2"])
         el = [v[k] for k in ELEMS]
-        if env.symbolic:
-            return {"two": one[:5], "two_M": one[5], "back": el[:5], "back_M": el[5], "period": Ang(v["M"])}
-        return {"two": one[:2], "two_M": one[5], "back": el[:2], "back_M": el[5], "period": Ang(v["M"])}
-    return Case("kepler/compose", ins, run, ref, pre=lambda v: [v["a"] > 0, v["e"] < 1], tol=1e-6, abs_tol=1e-6,
-                desc="propagate(t1) then propagate(t2) = propagate(t1+t2); propagate(-t) is the inverse; one period adds exactly 2 pi to M")
+        k = 3 if env.symbolic else 2
+        r = {"two": one[:k], "two_angles": one[3:5], "two_M": one[5], "back": el[:k], "back_angles": el[3:5], "back_M": el[5]}
+        if periodic:
+            r["period"] = Ang(v["M"])
+        return r
+    pre = (lambda v: [v["a"] > 0, v["e"] < 1]) if family == "ell" else (lambda v: [v["a"] < 0, v["e"] > 1])
+    name = "kepler/compose" if (which, family) == ("kepler", "ell") else f"{which}/compose" + ("/hyp" if family == "hyp" else "")
+    return Case(name, ins, run, ref, pre=pre, tol=1e-6, abs_tol=1e-6, timeout=90,
+                desc=f"{which} ({family}): propagate(t1) then propagate(t2) = propagate(t1+t2); propagate(-t) is the inverse"
+                     + ("; one period adds exactly 2 pi to M" if periodic else ""))
 
 
 def j2_case(repeat=False):
@@ -225,7 +240,7 @@ def j2_special_case(kind):
 def all_cases(tier):
     return [kepler_case("ell"), kepler_case("hyp"), kepler_compose_case(), j2_case(), j2_special_case("polar"),
             j2_special_case("critical"), kepler_case("ell", True), kepler_case("hyp", True), j2_case(True),
-            kepler_case("ell", reuse=True), kepler_case("hyp", reuse=True)]
+            kepler_case("ell", reuse=True), kepler_case("hyp", reuse=True), kepler_compose_case("kepler", "hyp")]
 
 
 def groups(tier):
